@@ -146,3 +146,35 @@ def run(ctx):
         v = m.view
         in_reset = any(prims.self_field(x.path) == 'operations' and x.method == 'clear' for x in prims.mutations(v))
         ctx.ob(in_reset or guarded_any(v, m.bb, [r'^!session_present$']), 'id map cleared only on session-absent CONNACK or reset (in %s)' % short(v.path), 'idmap-clear|' + ('reset' if in_reset else 'session'), loc=m.loc())
+
+    # ------------------------------------------------------------ R-C06-6 (added after seed C06-2)
+    ctx.rule('R-C06-6', 'T2 + T9 residence', 'a publish that was already transmitted (DUP set, id bound) never enters the user queue - the only queue whose members are unbound at CONNACK - except through the session-absent restart, so a retransmission after a resumed reconnect reuses the original identifier')
+    cc = ctx.fn('ProtocolState::apply_connection_closed_to_current_operation')
+    nu = 0
+    for m in prims.mutations(cc):
+        if m.kind == 'mutcall' and prims.self_field(m.path) == 'user_operation_queue' and m.method in ('push_front', 'push_back') and guarded_any(cc, m.bb, [r'\.packet is Publish$']):
+            nu += 1
+            ctx.ob(guarded_any(cc, m.bb, [r'^!.*\.packet@Publish\.0\.duplicate$']) and guarded_any(cc, m.bb, [r'^!Option::is_some\(.*\.qos2_pubrel\)$', r'^!\(.*\.qos == QualityOfService::ExactlyOnce\{\}\)$', r'\.qos2_pubrel is None$']),
+                   'an interrupted current publish returns to the user queue (where its id will be released) only when it is neither a retransmission nor in its PUBREL phase', 'keep-id|current|user', loc=m.loc())
+    ctx.floor(nu, 1, 'user-queue re-queue sites of the current publish')
+    dup_edges = prims.edge_nodes_matching(cc, [r'^[^!].*\.packet@Publish\.0\.duplicate$'])
+    okd = bool(dup_edges)
+    for en in dup_edges:
+        r = cc.reach([en])
+        users = [m.bb for m in prims.mutations(cc) if m.kind == 'mutcall' and prims.self_field(m.path) == 'user_operation_queue']
+        fails = [c.bb for c in cc.calls('ProtocolState::complete_operation_as_failure')]
+        okd = okd and not any(b in r for b in users) and not any(b in r for b in fails)
+    ctx.ob(okd, 'once the current publish is known to be a retransmission no path demotes it to the user queue or fails it', 'keep-id|current|dup-complete', loc=cc.loc())
+    cl = ctx.fn('ProtocolState::handle_network_event_connection_closed')
+    drains = []
+    for cv in F.all_fns():
+        if norm(cv.f.get('parent') or '') != norm(cl.path):
+            continue
+        sets = [c for c in cv.calls('ProtocolState::set_publish_duplicate_flag') if show(c.arg(2)) == 'True']
+        if sets:
+            pushes = [(prims.self_field(m.path), m.method) for m in prims.mutations(cv) if m.kind == 'mutcall' and m.method.startswith('push')]
+            drains.append((cv, pushes))
+    ctx.ob(len(drains) == 1 and drains[0][1] == [('resubmit_operation_queue', 'push_back')], 'unacknowledged publishes drained at close are marked DUP and queued for resubmission only (%s)' % [d[1] for d in drains], 'keep-id|drain', loc=cl.loc())
+    # the user queue receives at close: current op (above), write-completion retained (QoS0 / never acked), unacked sub/unsub, its own retained half
+    sess_un = [c for c in F.callers().get(ub.key, [])]
+    ctx.ob(len(sess_un) == 1, 'unbind has a single caller (the user-queue restart loop, R-C06-5)', 'keep-id|unbind-single', loc=ub.loc())
